@@ -722,6 +722,31 @@ def check_access_info(idx, run):
                   f"reported as a plain write is made thread-private by the "
                   f"OpenMP data-sharing inference and the sum is lost",
                   loc(mod, call))
+    # a field is an array: its accesses must carry the DoF index, otherwise
+    # the data-sharing inference takes the data pointer for a scalar
+    for call in adds:
+        idxarg = call.args[3] if len(call.args) > 3 else next(
+            (k.value for k in call.keywords
+             if k.arg == "component_indices"), None)
+        ok = idxarg is not None and not (isinstance(idxarg, ast.Constant)
+                                         and idxarg.value is None)
+        if ok and isinstance(idxarg, ast.Name):
+            # the variable must be given a value for fields
+            ok = any(
+                isinstance(st, ast.If) and "is_field" in ast.unparse(st.test)
+                and any(isinstance(a, ast.Assign) and
+                        ast.unparse(a.targets[0]) == idxarg.id and
+                        not (isinstance(a.value, ast.Constant) and
+                             a.value.value is None) for a in st.body)
+                for st in ast.walk(func))
+        run.check("C20.R6", ok, cons,
+                  f"fields are recorded as indexed accesses "
+                  f"({norm_call(call)})",
+                  "a field argument is recorded without the DoF index, so "
+                  "its data array looks like a scalar: two built-ins writing "
+                  "the same field inside one OpenMP parallel region give "
+                  "`private(f1_data)` (the field's data pointer is undefined "
+                  "in every thread)", loc(mod, call))
     # all add_access calls are inside the loop over the arguments and the
     # separately collected writes are merged back
     txt = " ".join(ast.unparse(func).split())
